@@ -1111,7 +1111,10 @@ func (f *fctx) effectful(c *callee) bool {
 }
 
 // checkSkippable: a dropped (logging) call must have no effects in its arguments
-func (f *fctx) checkSkippable(call *ast.CallExpr, e *env) {
+func (f *fctx) checkSkippable(call *ast.CallExpr, e *env) { f.checkPure(call, e) }
+
+// checkPure: an expression whose value is dropped must be free of effects
+func (f *fctx) checkPure(top ast.Expr, e *env) {
 	var walk func(x ast.Expr)
 	walk = func(x ast.Expr) {
 		switch x := unparen(x).(type) {
@@ -1154,7 +1157,7 @@ func (f *fctx) checkSkippable(call *ast.CallExpr, e *env) {
 			f.t.fail(x.Pos(), "%T inside a dropped logging call", x)
 		}
 	}
-	walk(call)
+	walk(top)
 }
 
 // args translates the arguments of a call against the declared parameter types
@@ -1226,7 +1229,7 @@ func (f *fctx) callTerm(call *ast.CallExpr, c *callee, e *env) (term string, res
 		in := c.in
 		parts := []string{in.Coq}
 		args := call.Args
-		if c.recv != nil {
+		if c.recv != nil && !in.NoRecv {
 			r := c.recv
 			if in.On != "" {
 				r = &ast.SelectorExpr{X: c.recv, Sel: &ast.Ident{Name: in.On, NamePos: c.recv.Pos()}}
@@ -1274,7 +1277,7 @@ func (f *fctx) callTerm(call *ast.CallExpr, c *callee, e *env) (term string, res
 			t.fail(call.Pos(), "error constructor whose message is not a string literal")
 		}
 		for _, a := range call.Args[1:] {
-			f.checkSkippable(&ast.CallExpr{Fun: &ast.Ident{Name: "_"}, Args: []ast.Expr{a}}, e)
+			f.checkPure(a, e)
 		}
 		s, _ := strconv.Unquote(lit.Value)
 		return "Err " + bytesTerm(s), []string{"error"}, nil
@@ -1414,6 +1417,11 @@ func (f *fctx) callStmt(call *ast.CallExpr, c *callee, lhs []ast.Expr, define bo
 	panics := c.kind == "func" && c.fn.panics
 	if (changes || panics) && len(gs) > 0 {
 		t.fail(call.Pos(), "a call with effects and a possible panic of its arguments in one statement")
+	}
+	if changes && obj != nil && rootIdent(stripAddr(obj)) == f.fi.recvName && f.fi.recvName != "" {
+		if v, ok := e.vars[f.fi.recvName]; ok && v.typ == "*"+f.fi.recvStruct {
+			f.sawWrite = true // the receiver (or a part of it) is replaced by the callee's result
+		}
 	}
 	if lhs == nil {
 		for range results {
